@@ -14,7 +14,7 @@ OK_EXC = {"ParsingError", "DatabaseError"}
 
 
 def generate(R, tier):
-    n = 10000 if tier == "quick" else 200000
+    n = 10000 if tier == "quick" else 1000000
     K = D.KIND_LINES
     depth = 3 if tier == "quick" else 4
 
